@@ -38,7 +38,7 @@ def step (st : DState) (line : String) : DState × String :=
   | "pp" :: rest => let r := ppStep st.pp rest; ({ st with pp := r.1 }, r.2)
   | "crt" :: rest => let r := crtStep st.crt rest; ({ st with crt := r.1 }, r.2)
   | "bw" :: rest => let r := bwStep st.bw rest; ({ st with bw := r.1 }, r.2)
-  | "exec" :: _ | "xfer" :: _ | "fs" :: _ => let r := m2Step st.m2 toks; ({ st with m2 := r.1 }, r.2)
+  | "exec" :: _ | "xfer" :: _ | "fs2" :: _ => let r := m2Step st.m2 toks; ({ st with m2 := r.1 }, r.2)
   | "up" :: rest => (st, upStep rest)
   | "dl" :: rest => (st, dlStep rest)
   | "chunk" :: _ | "agg" :: _ => let r := chunkStep st.chunk toks; ({ st with chunk := r.1 }, r.2)
